@@ -85,7 +85,7 @@ SubReacts(sm, et) ==
 DefersEv(mm, st, et) == et # "none" /\ (et \in MD(mm).defers[st] \/ "any" \in MD(mm).defers[st])
 NeedsFwd(mm, st, et) ==
    IF IsM /\ Cfg.fct THEN TRUE
-   ELSE IF IsB /\ Cfg.fct THEN ~DefersEv(mm, st, et) /\ SubReacts(st, et)
+   ELSE IF IsB /\ Cfg.fct THEN et # "none" /\ ~DefersEv(mm, st, et) /\ SubReacts(st, et)   \* no call_submachine cell for completion events
    ELSE SubReacts(st, et)
 \* candidates of state st (region dispatch) in priority order
 Cands(mm, st, et) ==
@@ -288,7 +288,7 @@ X1: if (~IsSub(x_m, x_s)) {
        call Callback("ex", x_i, x_m, x_s, x_occ, -1);
 X1r:   return;
     };
-X3: while (x_r <= NReg(x_s)) {
+X3: while (x_r <= NReg(x_s) /\ (IsB \/ running[x_i][x_s])) {   \* backmp11: the active-state visitor is a no-op on a machine that was never entered
        call ExecExit(x_i, x_s, active[x_i][x_s][x_r], x_occ);
 X4:    if (exc) { return; } else { x_r := x_r + 1; };
     };
@@ -563,7 +563,8 @@ P9: return;
 procedure StartRoot(s_i)
   variables s_r = 1;
 {
-S0: active[s_i][Def.root] := MD(Def.root).init || running[s_i][Def.root] := TRUE || processing[s_i][Def.root] := IsM;
+S0: if (IsB) { active[s_i][Def.root] := MD(Def.root).init; };   \* backmp11 sets the ids only after the machine's own on_entry
+    running[s_i][Def.root] := TRUE; processing[s_i][Def.root] := IsM;
 S1: call Callback("en", s_i, Def.root, Def.root, StartOcc, -1);
 S2: if (IsM) {
        active[s_i][Def.root] := EntryActive(s_i, Def.root, <<>>, "start");
